@@ -212,6 +212,18 @@ func (m *shimModel) effect(fn *ssa.Function, ins ssa.Instruction) (string, bool)
 				return "call " + name + " on the raw connection", true
 			}
 		}
+		// a table handed to a function that is not known to leave it alone
+		for _, a := range callArgs(x) {
+			for _, f := range []string{m.fCerts, m.fCache} {
+				if !m.isLoadOfField(a, f) {
+					continue
+				}
+				if callee := c.StaticCallee(); callee != nil && m.w.InRepo(callee) && m.effectFree(callee, 0) {
+					continue
+				}
+				return "call " + name + " on table " + f, true
+			}
+		}
 		// calls of server methods
 		if callee := c.StaticCallee(); callee != nil && recvNamed(callee) == m.Server {
 			if m.effectFree(callee, 0) {
